@@ -519,7 +519,11 @@ def ssqrt(x, square_axiom=True):
     y = uf("sqrt", R, R)(t)
     c = cur()
     if square_axiom:
-        c.axiom(z3.Implies(t >= 0, z3.And(y >= 0, y * y == t)), "sqrt")
+        if known(wrap(t >= 0)) is True:
+            c.axiom(y >= 0, "sqrt")
+            c.axiom(y * y == t, "sqrt.sq")
+        else:
+            c.axiom(z3.Implies(t >= 0, z3.And(y >= 0, y * y == t)), "sqrt")
     c.axiom(z3.Implies(t == 0, y == 0), "sqrt.zero")
     tq = z3.Real("t!sqrt")
     c.axiom_global(z3.ForAll([tq], uf("sqrt", R, R)(tq) >= 0, patterns=[uf("sqrt", R, R)(tq)]), "sqrt.nonneg")
@@ -1238,6 +1242,7 @@ class SArrT:
     """transpose view of a 2-D SArr: shape (d, n) -- symbolic extent on axis 1"""
     _pyvc_array = True
     _pyvc_sarrT = True
+    __array_priority__ = 2000
 
     def __init__(self, base):
         self.base = base
@@ -1248,13 +1253,52 @@ class SArrT:
     def T(self):
         return self.base
 
+    @property
+    def ndim(self):
+        return 2
+
     def __getitem__(self, key):
         if isinstance(key, tuple) and len(key) == 2:
             a, b = key
             if isinstance(a, slice) and a == slice(None):
                 if isinstance(b, (int, SI, np.integer)):
                     return self.base[b]
+                if isinstance(b, slice):
+                    return SArrT(self.base[b])
         raise OutOfReach("SArrT index %r" % (key, ))
+
+    def _bin(self, o, f):
+        if isinstance(o, SArrT):
+            return SArrT(self.base._bin(o.base, f))
+        if isinstance(o, np.ndarray) and o.shape == (self.shape[0], 1):
+            col = np.asarray(o).reshape(-1)
+            g = self.base._cell[0]
+            return SArrT(SArr(self.base.shape, lambda k: _ew(f, g(k), col.view(CArr)), self.kind))
+        if is_num(o):
+            return SArrT(self.base._bin(o, f))
+        raise OutOfReach("arithmetic of a transposed symbolic array with %s" % type(o).__name__)
+
+    def __sub__(self, o):
+        return self._bin(o, lambda a, b: a - b)
+
+    def __add__(self, o):
+        return self._bin(o, lambda a, b: a + b)
+
+    def __mul__(self, o):
+        return self._bin(o, lambda a, b: a * b)
+
+    __rmul__ = __mul__
+
+    def mean(self, axis=None):
+        """trusted: mean over the symbolic axis = (sum of the rows) / n, component-wise"""
+        if axis != 1:
+            raise OutOfReach("SArrT.mean(axis=%r)" % (axis, ))
+        from . import npstub
+        n = self.shape[1]
+        cur().safety("pre.mean_nonempty", n > 0)
+        g = self.base._cell[0]
+        d = self.shape[0]
+        return CArr([sdiv(npstub.prefix_sum(lambda k, i=i: g(k)[i])(n), n) for i in range(d)])
 
     def __eq__(self, o):
         raise OutOfReach("comparison on transposed symbolic array")
